@@ -205,6 +205,99 @@ def parse_print_assumptions(vsrc: str, out: str) -> list[dict]:
 # --------------------------------------------------------------------------------------
 
 
+# --------------------------------------------------------------------------------------
+# translator tie (coq/gen/README.md): Gallina regenerated from the Python source + committed equivalence theorems
+
+GEN = COQ / "gen"
+GEN_LIBS = ("PyPrelude.v", "PyPreludeFacts.v")
+
+
+def _gen_libs(gd: Path) -> str | None:
+    """Put compiled copies of coq/gen/PyPrelude*.v into `gd` (compiled once per content under .work/gencache); error text or None."""
+    txt = "".join((GEN / f).read_text() for f in GEN_LIBS)
+    cache = WORK / "gencache" / hashlib.sha256(txt.encode()).hexdigest()[:16]
+    WORK.mkdir(exist_ok=True)
+    with open(WORK / "gencache.lock", "w") as lk:
+        fcntl.flock(lk, fcntl.LOCK_EX)
+        if not (cache / "done").exists():
+            shutil.rmtree(cache, ignore_errors=True)
+            cache.mkdir(parents=True)
+            for f in GEN_LIBS:
+                shutil.copy(GEN / f, cache / f)
+                r = subprocess.run(["timeout", "300", "coqc", "-Q", str(cache), "ShampooGen", *COQ_FLAGS, str(cache / f)], capture_output=True, text=True, cwd=cache)
+                if r.returncode != 0:
+                    return f"{f} does not compile: {(r.stdout + r.stderr)[-800:]}"
+            (cache / "done").write_text("ok")
+        for f in cache.glob("*.vo"):
+            shutil.copy(f, gd / f.name)
+    return None
+
+
+def gen_equiv_compile(workdir: Path, gen_name: str, gen_text, equiv_file: str, extra_allowed: set[str] = frozenset()) -> dict:
+    """Write the generated module `gen_name` (text, or a callable returning text or (text, metadata); the callable may raise
+    py2coq.Untranslatable) to <workdir>/gen/, compile it and the committed coq/gen/<equiv_file> against it, and read every
+    `Print Assumptions`.  Never raises; `broken` lists what does not hold."""
+    t0 = time.time()
+    gd = workdir / "gen"
+    gd.mkdir(parents=True, exist_ok=True)
+    eq = GEN / equiv_file
+    vsrc = eq.read_text() if eq.exists() else ""
+    thms = re.findall(r"^\s*Theorem\s+([A-Za-z0-9_']+)", strip_coq_comments(vsrc), re.M)
+    res = {"ok": False, "broken": [], "generated_module": gen_name, "equiv_file": f"coq/gen/{equiv_file}", "theorems": thms, "per_theorem": [], "meta": None, "text": None}
+    broken = res["broken"]
+    flags = ["-Q", str(gd), "ShampooGen", *COQ_FLAGS]
+    try:
+        got = gen_text() if callable(gen_text) else gen_text
+        res["text"], res["meta"] = got if isinstance(got, tuple) else (got, None)
+    except Exception as e:  # Untranslatable: the source left the translated subset (or the function is gone)
+        broken.append(f"{equiv_file}: all of {thms}: the source could not be translated: {e}")
+    bad = scan_forbidden([eq, *(GEN / f for f in GEN_LIBS)]) if eq.exists() else [f"coq/gen/{equiv_file} is missing"]
+    if res["text"] is not None:
+        bad += [f"generated {gen_name}.v: forbidden `{m.group(0)}`" for m in FORBIDDEN_RE.finditer(strip_coq_comments(res["text"]))]
+    broken.extend(bad)
+    out = ""
+    if not broken:
+        err = _gen_libs(gd)
+        if err:
+            broken.append(err)
+    if not broken:
+        (gd / f"{gen_name}.v").write_text(res["text"])
+        shutil.copy(eq, gd / equiv_file)
+        for f, what in ((f"{gen_name}.v", "generated from the current source"), (equiv_file, "equivalence proofs")):
+            r = subprocess.run(["timeout", "600", "coqc", *flags, str(gd / f)], capture_output=True, text=True, cwd=gd)   # .lia.cache stays in the workdir
+            out = r.stdout + r.stderr
+            if r.returncode != 0:
+                m = re.search(r'line (\d+), characters', out)
+                near = ""
+                if m and f == equiv_file:     # name the theorem whose proof broke
+                    upto = "\n".join(vsrc.splitlines()[: int(m.group(1))])
+                    last = re.findall(r"(?:Theorem|Lemma)\s+([A-Za-z0-9_']+)", upto)
+                    near = f" in {last[-1]}" if last else ""
+                err = out[out.find("File \""):] if "File \"" in out else out
+                k = err.find("Error:")
+                err = (err[:err.find("\n")] + " " + err[k:k + 400]) if k >= 0 else err[-500:]
+                broken.append(f"{f} ({what}) does not compile{near}: " + " ".join(err.split()))
+                break
+    if not broken:
+        pa = {p["theorem"]: p["block"] for p in parse_print_assumptions(vsrc, out)}
+        for t in thms:
+            b = pa.get(t)
+            ax = b["axioms"] if b else []
+            notok = [a for a in ax if a not in ALLOWED_AXIOMS and a not in extra_allowed]
+            ok = b is not None and not notok
+            if b is None:
+                broken.append(f"{t}: no Print Assumptions output")
+            elif notok:
+                broken.append(f"{t}: depends on non-whitelisted axioms {notok}")
+            res["per_theorem"].append({"theorem": f"{Path(equiv_file).stem}.{t}", "axioms": ax, "ok": ok})
+    else:
+        res["per_theorem"] = [{"theorem": f"{Path(equiv_file).stem}.{t}", "ok": False} for t in thms]
+    res["ok"] = not broken
+    res["cmd"] = "coqc " + " ".join(flags) + f" <workdir>/gen/{gen_name}.v <workdir>/gen/{equiv_file}"
+    res["wall_s"] = round(time.time() - t0, 2)
+    return res
+
+
 class Violation(Exception):
     pass
 
@@ -279,6 +372,46 @@ class Check:
             self.violations.append({"replay": rp, "what": failed[0][:200], "nofail": True})
         return details
 
+    # ---- translator tie -----------------------------------------------------------
+    def gen_equiv(self, gen_name: str, gen_text, equiv_file: str) -> dict:
+        """Second tie for pure discrete functions: `gen_text` is the Gallina module regenerated from the CURRENT Python source
+        (a str, or a callable returning the text or (text, metadata) - it may raise py2coq.Untranslatable); the committed
+        coq/gen/<equiv_file> proves it equal to the hand-written model.  Adds the equivalence theorems to the obligations and
+        records coverage["translator"].  Never raises: returns {"ok": False, "broken": [...]} and the harness goes on with its
+        correspondence run; call `gen_equiv_verdict()` at the end (finish() does it as a safety net)."""
+        r = gen_equiv_compile(self.workdir, gen_name, gen_text, equiv_file)
+        cov = self.coverage
+        cov["obligations"] = cov.get("obligations", 0) + len(r["theorems"])
+        cov["discharged"] = cov.get("discharged", 0) + sum(1 for p in r["per_theorem"] if p["ok"])
+        cov["theorems"] = list(cov.get("theorems", [])) + r["per_theorem"]
+        cov["checker_cmd"] = (cov.get("checker_cmd", "") + "; " + r["cmd"]).lstrip("; ")
+        meta = r["meta"] or []
+        tr = cov.setdefault("translator", {"modules": []})
+        tr["modules"].append({
+            "generated_module": gen_name, "equiv_file": r["equiv_file"], "ok": r["ok"], "broken": r["broken"],
+            "functions_translated": [m["function"] for m in meta], "definitions": [d for m in meta for d in m["definitions"]],
+            "sources": [{k: m[k] for k in ("file", "function", "mode", "source_sha256", "source_lines")} for m in meta],
+            "generated_bytes": len(r["text"] or ""), "generated_lines": len((r["text"] or "").splitlines()),
+            "equivalence_theorems": r["theorems"], "wall_s": r["wall_s"]})
+        if not r["ok"]:
+            self._gen_broken = getattr(self, "_gen_broken", []) + r["broken"]
+        return {"ok": r["ok"], "broken": r["broken"]}
+
+    def gen_equiv_verdict(self) -> None:
+        """If an equivalence obligation broke and no other stream produced a failing input: the property is no longer shown."""
+        broken = getattr(self, "_gen_broken", None)
+        if not broken or getattr(self, "_gen_reported", False):
+            return
+        self._gen_reported = True
+        if any(not v["nofail"] for v in self.violations):
+            self.notes.append("translator tie also broken: " + broken[0][:300])
+            return
+        self.report(None, "translated source no longer provably equal to the model: " + " ".join(broken[0].split())[:260],
+                    {"kind": "translator-equivalence", "broken": broken, "translator": self.coverage.get("translator"),
+                     "note": "the Gallina regenerated from the current Python source is not (provably) the hand-written model any more, so the "
+                             "property theorems are not re-established for the code as it is now; no failing input was found by the other streams"},
+                    no_failing_input=True)
+
     # ---- model evaluation -------------------------------------------------------
     def eval_coq(self, sources: dict[str, str], timeout: int = 900, jobs: int = 16) -> dict[str, list[str]]:
         """Compile each generated .v (name -> text) and return, per file, the list of string values
@@ -338,6 +471,7 @@ class Check:
         self.violations.append({"replay": rp, "what": what[:300], "nofail": no_failing_input})
 
     def finish(self) -> int:
+        self.gen_equiv_verdict()      # no-op unless gen_equiv() recorded a broken obligation that was not reported yet
         cov = self.coverage
         cov.setdefault("trusted_base", [
             "Coq 8.16.1 kernel + vm_compute (no native_compute)",
